@@ -111,6 +111,17 @@ func (d digestView) str(full bool) string {
 	return "~" + w.RatString()
 }
 
+// outsideExact: values beyond 2^26 leave the exact domain of float64 for squares (DESIGN 4.1): the sum of squares of such
+// a row is neither printed nor judged.
+func outsideExact(mn, mx float64) bool { return math.Abs(mn) > 1<<26 || math.Abs(mx) > 1<<26 }
+
+func sqStr(mn, mx, sq float64) string {
+	if outsideExact(mn, mx) {
+		return "~"
+	}
+	return q(sq)
+}
+
 func uniqList(mv *data_model.MultiValue) ([]uint32, uint32) {
 	return data_model.VerifC02UniqueItems(&mv.HLL)
 }
@@ -118,9 +129,9 @@ func uniqList(mv *data_model.MultiValue) ([]uint32, uint32) {
 func mvStr(full bool, name string, mv *data_model.MultiValue) string {
 	v := &mv.Value
 	items, _ := uniqList(mv)
-	return fmt.Sprintf("%s cnt=%s hc=%s vs=%s min=%s max=%s sum=%s sq=%s hmin=%s hmax=%s dg=%s uq=%s",
-		name, q(v.Count()), tagStr(v.MaxCounterHostTag), b2s(v.ValueSet), q(v.ValueMin), q(v.ValueMax), q(v.ValueSum), q(v.ValueSumSquare),
-		tagStr(v.MinHostTag), tagStr(v.MaxHostTag), viewDigest(mv).str(full), verifx.List(items))
+	return fmt.Sprintf("%s cnt=%s hc=%s vs=%s min=%s max=%s sum=%s sq=%s hmin=%s hmax=%s dg=%s uqn=%d uq=%s",
+		name, q(v.Count()), tagStr(v.MaxCounterHostTag), b2s(v.ValueSet), q(v.ValueMin), q(v.ValueMax), q(v.ValueSum), sqStr(v.ValueMin, v.ValueMax, v.ValueSumSquare),
+		tagStr(v.MinHostTag), tagStr(v.MaxHostTag), viewDigest(mv).str(full), mv.HLL.ItemsCount(), verifx.List(items))
 }
 
 // ---------------------------------------------------------------- snapshot of the agent row (for the oracle)
@@ -175,6 +186,7 @@ type evSpec struct {
 	hist   [][2]float64
 	value  float64
 	hashes []int64
+	zero   bool // carries a zero-hash unique value
 }
 
 type caseSpec struct {
@@ -184,7 +196,8 @@ type caseSpec struct {
 	sf       float64
 	events   []evSpec
 	aggHost  tag
-	cap      int // string-top capacity passed to MapStringTop (Shard config StringTopCapacity)
+	cap      int  // string-top capacity passed to MapStringTop (Shard config StringTopCapacity)
+	legacy   bool // agent Config.LegacyApplyValues: value events go through MultiValue.ApplyValuesLegacy
 }
 
 type caseCtx struct {
@@ -194,6 +207,7 @@ type caseCtx struct {
 	hasPct bool
 	kinds  map[string]bool
 	cap    int
+	legacy bool
 	// state of the Top map before the current event (to observe what MapStringTop's random draws did)
 	keysBefore map[tag]bool
 	sfBefore   int
@@ -241,7 +255,7 @@ func (c *caseCtx) drawSuffix(key tag, applied bool) string {
 	return fmt.Sprintf("%d %s %d %s", c.cap, b2s(redirect), rounds, verifx.List(sortedTags(evicted)))
 }
 
-func genEvent(r *verifx.Rng, base float64, topNum int) evSpec {
+func genEvent(r *verifx.Rng, base float64, topNum int, bigOK bool) evSpec {
 	e := evSpec{}
 	if r.Chance(topNum, 5) {
 		e.top = topPool[r.Intn(len(topPool))]
@@ -285,6 +299,18 @@ func genEvent(r *verifx.Rng, base float64, topNum int) evSpec {
 			e.hashes = append(e.hashes, x)
 		}
 		e.count = float64(n) * []float64{0, 0, 1, 2, 0.5, 3}[r.Intn(6)]
+		if bigOK && len(zeroHashValues) > 0 && r.Chance(1, 4) {
+			// a unique value whose 32-bit sketch hash is 0 (ChUnique keeps it as hasZeroItem): alone, or next to a small
+			// value.  No rescaling (count = number of values): the square of such a value is outside the exact domain.
+			z := zeroHashValues[r.Intn(len(zeroHashValues))]
+			if r.Bool() {
+				e.hashes = []int64{z}
+			} else {
+				e.hashes = []int64{z, int64(r.Range(1, 9))}
+			}
+			e.count = 0
+			e.zero = true
+		}
 	}
 	return e
 }
@@ -344,7 +370,12 @@ func (c *caseCtx) applyEvent(e evSpec) {
 		var mv *data_model.MultiValue
 		if count > 0 {
 			mv = target(count)
-			mv.ApplyValues(c.rng, e.hist, e.vals, count, total, host, agentCompression, c.hasPct)
+			if c.legacy { // Shard.ApplyValues with config.LegacyApplyValues
+				mv.ApplyValuesLegacy(c.rng, e.hist, e.vals, count, total, host, agentCompression, c.hasPct)
+				h.Stat("ev.legacy-values", 1)
+			} else {
+				mv.ApplyValues(c.rng, e.hist, e.vals, count, total, host, agentCompression, c.hasPct)
+			}
 		}
 		vs := make([]string, len(e.vals))
 		for i, v := range e.vals {
@@ -354,7 +385,11 @@ func (c *caseCtx) applyEvent(e evSpec) {
 		for i, kv := range e.hist {
 			hs[i] = q(kv[0]) + ":" + q(kv[1])
 		}
-		c.finishEvent(mv, key, fmt.Sprintf("ev v %s %s %s %s %s", tagStr(top), q(e.count), verifx.List(vs), verifx.List(hs), tagStr(host)), pickOf, b2s(c.hasPct))
+		opKind := "v"
+		if c.legacy {
+			opKind = "l"
+		}
+		c.finishEvent(mv, key, fmt.Sprintf("ev %s %s %s %s %s %s", opKind, tagStr(top), q(e.count), verifx.List(vs), verifx.List(hs), tagStr(host)), pickOf, b2s(c.hasPct))
 	case 'p': // Shard.AddValueCounterHost (built-in metrics)
 		c.kinds["v"] = true
 		h.Stat("ev.value1", 1)
@@ -427,7 +462,7 @@ func tlValueStr(name string, v *tlstatshouse.MultiValueBytes, fm uint32) string 
 	}
 	return fmt.Sprintf("tl val %s c=%s eq1=%s vs=%s min=%s max=%s sum=%s sq=%s uq=%s cents=%s imp=%s hmaxI=%s hminI=%s hcntI=%s hmaxS=%s hminS=%s hcntS=%s",
 		name, opt(v.IsSetCounter(fm), q(v.Counter)), b2s(v.IsSetCounterEq1(fm)), b2s(v.IsSetValueSet(fm)), opt(v.IsSetValueMin(fm), q(v.ValueMin)),
-		opt(v.IsSetValueMax(fm), q(v.ValueMax)), q(v.ValueSum), q(v.ValueSumSquare), opt(v.IsSetUniques(fm), hll(v.Uniques)),
+		opt(v.IsSetValueMax(fm), q(v.ValueMax)), q(v.ValueSum), sqStr(v.ValueMin, v.ValueMax, v.ValueSumSquare), opt(v.IsSetUniques(fm), hll(v.Uniques)),
 		opt(v.IsSetCentroids(fm), centsStr(cm, cw)), b2s(v.IsSetImplicitCentroid(fm)),
 		opt(v.IsSetMaxHostTag(fm), fmt.Sprint(v.MaxHostTag)), opt(v.IsSetMinHostTag(fm), fmt.Sprint(v.MinHostTag)), opt(v.IsSetMaxCounterHostTag(fm), fmt.Sprint(v.MaxCounterHostTag)),
 		opt(v.IsSetMaxHostStag(fm), string(v.MaxHostStag)), opt(v.IsSetMinHostStag(fm), string(v.MinHostStag)), opt(v.IsSetMaxCounterHostStag(fm), string(v.MaxCounterHostStag)))
@@ -533,8 +568,33 @@ func genCase(h *verifx.H, r *verifx.Rng) caseSpec {
 		topNum = 4
 		nev = r.Range(3, 8)
 	}
+	sp.legacy = r.Chance(1, 4)
 	for i := 0; i < nev; i++ {
-		sp.events = append(sp.events, genEvent(r, base, topNum))
+		// zero-hash unique values are ~5e8..2.4e9: not representable in the float32 centroids of percentile rows
+		sp.events = append(sp.events, genEvent(r, base, topNum, !sp.hasPct))
+	}
+	// at most two events of a row carry a zero-hash value ALONE (k * fl(x^2) stays exact for k <= 2, so the agent's
+	// `sumsq == sum*min` test agrees with exact arithmetic); further ones get a small companion value (min != max)
+	alone := 0
+	for i := range sp.events {
+		if sp.events[i].zero && len(sp.events[i].hashes) == 1 {
+			alone++
+			if alone > 2 {
+				sp.events[i].hashes = append(sp.events[i].hashes, 3)
+			}
+		}
+	}
+	if sp.legacy && r.Bool() {
+		// legacy percentile path: rows whose values are all identical (0 or base) still own a digest
+		v0 := []float64{0, 0, base}[r.Intn(3)]
+		for i := range sp.events {
+			for j := range sp.events[i].vals {
+				sp.events[i].vals[j] = v0
+			}
+			for j := range sp.events[i].hist {
+				sp.events[i].hist[j][0] = v0
+			}
+		}
 	}
 	if sp.cap < 100 || !sp.noSample {
 		// entries may be folded into Tail (resample / FinishStringTop) in an unobservable order: one host tag per row
@@ -595,6 +655,12 @@ func corpus() [][]caseSpec {
 		// and their string-top keys must not alias the receive buffer (seeded C02-r5-2 shape)
 		{{key: ks(404, 1, 3), noSample: true, sf: 1, aggHost: tag{I: 1000}, events: []evSpec{val(tag{S: "checkout"}, 1), val(tag{}, 2)}},
 			{key: ks(404, 2, 3), noSample: true, sf: 1, aggHost: tag{I: 1000}, events: []evSpec{val(tag{S: "eu"}, 3), val(tag{}, 4)}}},
+		// a row whose only unique value hashes to 0 (seeded C02-r6-1 shape), and one mixing it with other values
+		{{key: k(405), noSample: true, sf: 1, aggHost: tag{I: 1000}, events: []evSpec{{kind: 'u', hashes: []int64{528038771}}}},
+			{key: k(406), noSample: true, sf: 2, aggHost: tag{I: 1000}, events: []evSpec{{kind: 'u', hashes: []int64{528038771, 5, 7}}, {kind: 'u', top: tag{S: "a"}, hashes: []int64{1530889310}}}}},
+		// legacy percentile path: all values 0 (the row owns a digest) plus counter-only events (seeded C02-r6-2 shape)
+		{{key: k(407), noSample: true, sf: 2, hasPct: true, legacy: true, aggHost: tag{I: 1000}, events: []evSpec{{kind: 'v', vals: []float64{0}}, {kind: 'c', count: 2}}},
+			{key: k(408), noSample: true, sf: 3, hasPct: true, legacy: true, aggHost: tag{I: 1000}, events: []evSpec{{kind: 'c', count: 1}, {kind: 'v', vals: []float64{5, 5}}, {kind: 'v', hist: [][2]float64{{5, 2}}}}}},
 		// raw int32 string-top keys incl. negative ones next to a string key: every key must arrive as itself (seeded C02-r4-2 shape)
 		{{key: k(403), noSample: true, sf: 2, aggHost: tag{I: 1000}, events: []evSpec{val(tag{I: -1}, 1), val(tag{I: math.MinInt32}, 2), val(tag{S: "a"}, 3), val(tag{}, 4)}}},
 		// sampler path, five string tops, StringTopCountSend = 3: FinishStringTop folds the two smallest into Tail
@@ -661,7 +727,7 @@ func runBucket(h *verifx.H, r *verifx.Rng, sh *agent.VerifC02Shard, agg *aggrega
 		if sp.cap == 0 {
 			sp.cap = 100
 		}
-		c := &caseCtx{h: h, rng: rng, kinds: map[string]bool{}, hasPct: sp.hasPct, cap: sp.cap}
+		c := &caseCtx{h: h, rng: rng, kinds: map[string]bool{}, hasPct: sp.hasPct, cap: sp.cap, legacy: sp.legacy}
 		key := sp.key
 		meta := &format.MetricMetaValue{MetricID: key.Metric, NoSampleAgent: sp.noSample, HasPercentiles: sp.hasPct,
 			EffectiveResolution: 1, EffectiveWeight: 1}
@@ -1015,7 +1081,9 @@ func (o *oracle) compare(name string, a snap, g *data_model.MultiValue) {
 		if rat(v.ValueSum).Cmp(o.scaled(a.sum)) != 0 {
 			h.Viol("agg-sum", "%s: sum %s x sf %s arrived as %s (count %s min %s max %s)", name, q(a.sum), q(o.sf), q(v.ValueSum), q(a.cnt), q(a.min), q(a.max))
 		}
-		if rat(v.ValueSumSquare).Cmp(o.scaled(a.sq)) != 0 {
+		if outsideExact(a.min, a.max) {
+			h.Stat("oracle.sumsq-outside-exact-domain", 1)
+		} else if rat(v.ValueSumSquare).Cmp(o.scaled(a.sq)) != 0 {
 			h.Viol("agg-sumsq", "%s: sum of squares %s x sf %s arrived as %s (count %s min %s max %s)", name, q(a.sq), q(o.sf), q(v.ValueSumSquare), q(a.cnt), q(a.min), q(a.max))
 		}
 		if v.MinHostTag != o.sub(a.hmin) {
@@ -1029,6 +1097,9 @@ func (o *oracle) compare(name string, a snap, g *data_model.MultiValue) {
 	items, sd := uniqList(g)
 	if sd == 0 && a.cnt > 0 && fmt.Sprint(items) != fmt.Sprint(a.uq) {
 		h.Viol("agg-uniques", "%s: unique set %v arrived as %v", name, a.uq, items)
+	}
+	if sd == 0 && a.cnt > 0 && g.HLL.ItemsCount() != len(a.uq) {
+		h.Viol("agg-unique-count", "%s: %d unique values %v arrived as a set reporting %d items", name, len(a.uq), a.uq, g.HLL.ItemsCount())
 	}
 	// centroids
 	gd := viewDigest(g)
@@ -1051,7 +1122,9 @@ func (o *oracle) compare(name string, a snap, g *data_model.MultiValue) {
 			}
 			break
 		}
-		if noMergeSafe(em, ew, data_model.AggregatorPercentileCompression) {
+		if "~"+tw.RatString() != gd.str(false) {
+			h.Viol("centroids-weight-mismatch", "%s: total centroid weight %s x sf %s arrived as %s (centroids %s)", name, a.dg.str(false), q(o.sf), gd.str(false), gd.str(true))
+		} else if noMergeSafe(em, ew, data_model.AggregatorPercentileCompression) {
 			if centsStr(em, ew) != gd.str(true) {
 				h.Viol("agg-centroids", "%s: centroids %s x sf %s arrived as %s", name, a.dg.str(true), q(o.sf), gd.str(true))
 			}
@@ -1070,8 +1143,29 @@ func (o *oracle) compare(name string, a snap, g *data_model.MultiValue) {
 	}
 }
 
+// zeroHashValues: unique values whose 32-bit ChUnique hash is exactly 0, verified with the REAL hash function at start
+// (candidates found once by brute force; a short bounded search is the fallback if the hash function changed).
+var zeroHashValues []int64
+
+func findZeroHashValues() {
+	for _, c := range []int64{528038771, 1530889310, 2426526046} {
+		if data_model.VerifC02Hash32(uint64(c)) == 0 {
+			zeroHashValues = append(zeroHashValues, c)
+		}
+	}
+	if len(zeroHashValues) == 0 {
+		for x := int64(1); x < 1<<26 && len(zeroHashValues) == 0; x++ {
+			if data_model.VerifC02Hash32(uint64(x)) == 0 {
+				zeroHashValues = append(zeroHashValues, x)
+			}
+		}
+	}
+}
+
 func main() {
 	h := verifx.New()
+	findZeroHashValues()
+	h.Stat("gen.zero-hash-values-verified", int64(len(zeroHashValues)))
 	sh := agent.VerifC02NewShard(stringTopCountSend, 100_000_000, bucketTs)
 	agg, err := aggregator.VerifC02NewAgg(int32(bucketTs%3)+1, mappings)
 	if err != nil {
